@@ -17,12 +17,35 @@
 (***************************************************************************)
 EXTENDS Integers, FiniteSets, TLC
 
-CONSTANTS G, Texts, Dev_ReadAfterUnlock,
-          Nested,              \* the set of goroutines whose evaluation resolves a CTE: the selector steps call
-                               \* ExecReader again, on the same goroutine, before the outer call returns
-          Dev_EvalUnderLock    \* deviation: the mutex is released only after the selector has been evaluated
+\* (the @type comments are for Apalache - CacheInd.tla discharges an inductive invariant; TLC ignores them)
+CONSTANTS
+    \* @type: Int;
+    G,
+    \* @type: Set(Str);
+    Texts,
+    \* @type: Bool;
+    Dev_ReadAfterUnlock,
+    \* @type: Set(Int);
+    Nested,              \* the set of goroutines whose evaluation resolves a CTE: the selector steps call
+                         \* ExecReader again, on the same goroutine, before the outer call returns
+    \* @type: Bool;
+    Dev_EvalUnderLock    \* deviation: the mutex is released only after the selector has been evaluated
 
-VARIABLES sel, pc, holder, cache, open, got, inner
+VARIABLES
+    \* @type: Int -> Str;
+    sel,
+    \* @type: Int -> Str;
+    pc,
+    \* @type: Int;
+    holder,
+    \* @type: Set(Str);
+    cache,
+    \* @type: Set({g: Int, kind: Str});
+    open,
+    \* @type: Int -> Str;
+    got,
+    \* @type: Int -> Str;
+    inner
 cvars == <<sel, pc, holder, cache, open, got, inner>>
 
 Gs == 1..G
